@@ -42,6 +42,65 @@ pub fn check_probability(cfg: &Config, combos: &[u16], got: f32, want: f64) -> R
 }
 
 pub fn check(cfg: &Config) -> CheckResult {
+    check_players(cfg, None)
+}
+
+/// ranges given as notation text (token lists with overlaps): the evaluator runs over the PARSED
+/// ranges, the model over the combos the text denotes
+#[derive(Clone, Debug, serde::Serialize, serde::Deserialize)]
+pub struct TextCase {
+    pub flop: [u8; 3],
+    pub lists: Vec<crate::props::c05::ListCase>,
+}
+
+pub fn check_text(c: &TextCase) -> CheckResult {
+    use crate::notation::{espada_map, model_of_tokens, diff_maps};
+    let mut ranges = vec![];
+    let mut players = vec![];
+    for l in &c.lists {
+        let text = crate::props::c05::list_text(l);
+        let m = model_of_tokens(&l.toks);
+        let Ok(r) = text.parse::<espada::hand_range::HandRange>() else {
+            return Ok(Outcome::default()); // C05's subject
+        };
+        if diff_maps(&m, &espada_map(&r)).is_some() || m.is_empty() {
+            return Ok(Outcome::default()); // contents differ from the notation's meaning: C05's subject
+        }
+        ranges.push(RangeSpec { combos: m.iter().map(|(k, w)| (k.0, k.1, *w)).collect() });
+        players.push(r);
+    }
+    let mut cfg = Config { flop: c.flop, ranges, scope: None };
+    // cost bound: only small products are drained completely
+    if cfg.slots() > 1_200_000 {
+        return Ok(Outcome::default());
+    }
+    cfg.scope = None;
+    let mut o = check_players(&cfg, Some(&players)).map_err(|mut f| {
+        f.what = format!("{} [ranges parsed from {:?}]", f.what, c.lists.iter().map(crate::props::c05::list_text).collect::<Vec<_>>());
+        f
+    })?;
+    // non-trivial here: some combo comes from two tokens of one list
+    let mut dup = false;
+    for l in &c.lists {
+        let mut seen = std::collections::BTreeSet::new();
+        for t in &l.toks {
+            for p in t.tok.combos() {
+                if !seen.insert(p) {
+                    dup = true;
+                }
+            }
+        }
+    }
+    o.nontrivial = dup;
+    o.classes = (o.classes & !512) | if dup { 512 } else { 0 };
+    Ok(o)
+}
+
+pub fn text_strategy() -> impl Strategy<Value = TextCase> {
+    (flop_strategy(), proptest::collection::vec(crate::props::c05::list_strategy(5), 1..=3)).prop_map(|(flop, lists)| TextCase { flop, lists })
+}
+
+pub fn check_players(cfg: &Config, players: Option<&Vec<espada::hand_range::HandRange>>) -> CheckResult {
     vensure!(cfg.valid() && cfg.scope.is_none(), "bad-case", "invalid configuration");
     vensure!(cfg.ranges.iter().all(|r| !r.combos.is_empty()), "bad-case", "C02 quantifies over ranges of size 1..=1326");
     let n = cfg.ranges.len();
@@ -49,7 +108,10 @@ pub fn check(cfg: &Config) -> CheckResult {
     let mut blocked_pp = 0u64;
     model_deals(cfg, (0, 1), (48, 49), &mut deals, &mut blocked_pp);
     deals.sort_by_key(|d| d.key);
-    let recs = drain(cfg, deals.len())?;
+    let recs = match players {
+        Some(p) => drain_with(cfg, p, deals.len())?,
+        None => drain(cfg, deals.len())?,
+    };
     let mut got: Vec<DealKey> = Vec::with_capacity(recs.len());
     for r in &recs {
         let k = r.key();
@@ -264,7 +326,7 @@ pub fn prefix_strategy(scoped: bool) -> impl Strategy<Value = PrefixCase> {
     })
 }
 
-pub const CLASSES: &[&str] = &["player_player_collision", "range_overlaps_flop", "range_over_255", "three_plus_players", "weights_not_1", "no_legal_deal", "full_1326_range", "seven_plus_players", "tiny_weights"];
+pub const CLASSES: &[&str] = &["player_player_collision", "range_overlaps_flop", "range_over_255", "three_plus_players", "weights_not_1", "no_legal_deal", "full_1326_range", "seven_plus_players", "tiny_weights", "combo_named_by_two_tokens"];
 
 pub fn strategy(budget: u128) -> impl Strategy<Value = Config> {
     let sizes = prop_oneof![
@@ -277,6 +339,8 @@ pub fn strategy(budget: u128) -> impl Strategy<Value = Config> {
         1 => pool_config(7..=10, 16..=26, 2),
         2 => free_config(1..=1, 1, 1326),
         2 => free_config(2..=3, 1, 6),
+        // the empty list of players: one showdown per board, probability 1 (empty product)
+        1 => flop_strategy().prop_map(|flop| Config { flop, ranges: vec![], scope: None }),
         1 => (flop_strategy(), range_from(all_combos(), 2, 30)).prop_map(|(flop, r)| Config { flop, ranges: vec![r.clone(), r], scope: None }),
         2 => (flop_strategy(), range_from(all_combos(), 1, 3), sizes, any::<u64>(), any::<bool>(), any::<bool>()).prop_map(|(flop, narrow, size, seed, w, wide_first)| {
             let wide = sized_range(size, seed, w);
@@ -309,7 +373,7 @@ pub fn strategy(budget: u128) -> impl Strategy<Value = Config> {
 }
 
 pub fn run(ctx: &mut Ctx) {
-    ctx.rule = "proptest configurations (ordered flop, 1..=10 players, ranges built directly from combo subsets with weights {1,.5,.25,0} + arbitrary f32 in [2^-10,1] + 'nearly flat' ranges whose weights are neighbouring f32 values): card-pool ranges (frequent player-player blocking, pools may contain flop cards), one player of any size up to 1326, small free ranges, two identical ranges, narrow beside wide (127/128/129/255/256/257/300/511/512/513/1023/1024/1025/1325/1326/random); tiny weights (around 2^-20..2^-24) when there are <= 4 players; sizes cut to a slot budget (cost bound). Oracle: multiset of yielded deals == reference enumeration (every legal deal once, nothing else), board = flop in order + turn/river, hole cards in player order, probability == product of the chosen weights (<= 4 players: exactly one of the f32 values some order/association of the multiplications gives, for one player the weight itself; more players: within (n+1) roundings), all cards distinct. Stream huge_prefix: 3 ranges of 300-1326 combos each or 4 of up to 160 (up to 2.3e9 slots per position, far too large to drain): the first 1-3000 showdowns must be legal, distinct, ordered by position, start at the first position that has a legal deal, carry the right probability, and there must be as many of them as the window provably holds. Non-trivial = the reference excluded >= 1 candidate deal because two players collide AND some player has >= 2 combos; distinct by configuration.".into();
+    ctx.rule = "proptest configurations (ordered flop, 1..=10 players, ranges built directly from combo subsets with weights {1,.5,.25,0} + arbitrary f32 in [2^-10,1] + 'nearly flat' ranges whose weights are neighbouring f32 values): card-pool ranges (frequent player-player blocking, pools may contain flop cards), one player of any size up to 1326, small free ranges, two identical ranges, narrow beside wide (127/128/129/255/256/257/300/511/512/513/1023/1024/1025/1325/1326/random); tiny weights (around 2^-20..2^-24) when there are <= 4 players; sizes cut to a slot budget (cost bound). Oracle: multiset of yielded deals == reference enumeration (every legal deal once, nothing else), board = flop in order + turn/river, hole cards in player order, probability == product of the chosen weights (<= 4 players: exactly one of the f32 values some order/association of the multiplications gives, for one player the weight itself; more players: within (n+1) roundings), all cards distinct. Stream parsed_ranges: 1-3 players whose ranges are PARSED from generated token lists with overlapping tokens (the range's insertion history differs from a collected range of the same contents); same oracle. Stream huge_prefix: 3 ranges of 300-1326 combos each or 4 of up to 160 (up to 2.3e9 slots per position, far too large to drain): the first 1-3000 showdowns must be legal, distinct, ordered by position, start at the first position that has a legal deal, carry the right probability, and there must be as many of them as the window provably holds. Non-trivial = the reference excluded >= 1 candidate deal because two players collide AND some player has >= 2 combos; distinct by configuration.".into();
     ctx.assumptions = vec![
         "turn/river order inside the board is not demanded here (C04 does)".into(),
         "weights in {0} U [2^-10,1] (and a few values down to 2^-24 when there are <= 4 players) so that the product cannot leave the normal f32 range".into(),
@@ -320,12 +384,18 @@ pub fn run(ctx: &mut Ctx) {
     for (c, d) in [("player_player_collision", 4), ("range_overlaps_flop", 10), ("range_over_255", 20), ("three_plus_players", 8), ("weights_not_1", 4)] {
         ctx.require_class("configurations", c, cases / d);
     }
+    let cases = ctx.tier.pick(400, 8_000);
+    ctx.run_random_brief(StreamCfg::new("parsed_ranges", CLASSES, cases).shrink(100), text_strategy, check_text, |c| json!({"flop": cnames(&c.flop), "ranges": c.lists.iter().map(crate::props::c05::list_text).collect::<Vec<_>>()}));
+    ctx.require_class("parsed_ranges", "combo_named_by_two_tokens", cases / 6);
     let cases = ctx.tier.pick(160, 3_000);
     ctx.run_random_brief(StreamCfg::new("huge_prefix", PREFIX_CLASSES, cases).shrink(40), || prefix_strategy(false), check_prefix, |c| json!({"cfg": c.cfg.brief(), "take": c.take}));
     ctx.require_class("huge_prefix", "window_slots_over_2_32", cases / 4);
 }
 
 pub fn replay(stream: &str, path: &str, case: &Value) -> i32 {
+    if stream == "parsed_ranges" {
+        return replay_case::<TextCase>("C02", path, case, check_text);
+    }
     if stream == "huge_prefix" {
         return replay_case::<PrefixCase>("C02", path, case, check_prefix);
     }
